@@ -262,6 +262,8 @@ static std::vector<Case> curated() {
   v.push_back(single("x0 := 1;\nWHILE x0 != 0 DO\n  x1 := 2\nEND\n"));
   v.push_back(single("x0 := 2;\nla: x1 := x1 + 1;\nx0 := x0 - 1;\nIF x0 = 0 THEN GOTO lb;\nGOTO la;\nlb: x2 := x1\n"));
   v.push_back(single("x0 := 1; x1 := 2; x2 := 3\n"));
+  v.push_back(single("x0 := 2147483646;\nx1 := x0 + 5;\nx0 := x0 + 2147483646;\nx2 := x0 - 7\n"));
+  v.push_back(single("x1 := 3;\nLOOP x1 DO\n  x0 := x0 + 1000000000\nEND;\nx2 := x0\n"));
   v.push_back(single("PROGRAM f DO x0 := 1 END PROGRAM g DO x0 := RUN f WITH END END x0 := RUN g WITH END; x1 := RUN g WITH END\n"));
   v.push_back(single("x0 := 2;\nWHILE x0 != 0 DO\n  x0 := x0 - 1;\n  LOOP x0 DO\n    x1 := x1 + 1\n  END\nEND\n"));
   v.push_back(single("x0 := 1;\nWHILE x0 != 0 DO\n  x1 := x1 + 1;\n  IF x1 = 3 THEN GOTO out\nEND;\nout: x2 := x1\n"));
